@@ -107,3 +107,8 @@ impl TrackerClient {
         metainfo.tracker_url().clone() + separator + info_hash.as_str()
     }
 }
+
+// Verification hooks (harnesses live in /verif/hooks); inert unless built with --cfg rdest_verif or by cargo-kani
+#[cfg(any(kani, rdest_verif))]
+#[path = "/verif/hooks/tracker_client.rs"]
+mod verif_hooks;
